@@ -97,6 +97,48 @@ func StepBudget(c *RunConfig) int {
 	return 10 * est
 }
 
+// ExecutePlain runs one configuration with real goroutines and no controller:
+// the race monitor (pristine packages built with -race). The schedule is not
+// controlled; PRNG-chosen runtime.Gosched bursts inside device reads and
+// runner calls only stir it.
+func ExecutePlain(cfg *RunConfig, timeout time.Duration) *Outcome {
+	st := BuildStream(cfg.Stream, cfg.Required())
+	src := NewSimSource(st, cfg, false)
+	rs := NewRunState(cfg, st, false)
+	setCurrent(rs)
+	defer setCurrent(nil)
+	out := &Outcome{Cfg: cfg, NamedItem: -1, Stream: st}
+	done := make(chan struct{})
+	var v bool
+	var err error
+	go func() {
+		defer close(done)
+		v, err = callWorkflow(cfg.Workflow, src, cfg.NumByte)
+	}()
+	select {
+	case <-done:
+		out.Verdict = v
+		out.ErrNil = err == nil
+		if err != nil {
+			out.Err = err.Error()
+			out.NamedItem = NameItem(out.Err)
+		}
+		out.Returned = true
+	case <-time.After(timeout):
+	}
+	out.Sim.MainReturned = out.Returned
+	out.Sim.Hang = !out.Returned
+	rs.mu.Lock()
+	out.Calls = rs.Calls
+	out.Observed = rs.Observed
+	out.Matrix = rs.matrix
+	rs.mu.Unlock()
+	src.mu.Lock()
+	out.Src = SrcStats{src.Reads, src.Delivered, src.Requested, src.FaultFired, src.ErrReturns, src.EOFReturns, src.MaxInRead, src.ShortReads, src.FirstErrAt, src.Log}
+	src.mu.Unlock()
+	return out
+}
+
 // Execute runs one configuration under the simulator.
 func Execute(t *testing.T, cfg *RunConfig) *Outcome {
 	st := BuildStream(cfg.Stream, cfg.Required())
